@@ -102,6 +102,10 @@ def generate(seed, tier):
         # a stray datagram aimed at the SPI pair of a handshake in progress, delivered between D's IKE_SA_INIT response and P's IKE_AUTH request
         sc['halfopen_stray'] = {'seed': r.randrange(2 ** 31), 'p': r.choice([0.5, 1.0])}
     if r.random() < 0.3:
+        # ... or at P's IKE_SA_INIT request while it waits for the answer: a forged cleartext answer (INVALID_KE_PAYLOAD naming a group P never
+        # offered, NO_PROPOSAL_CHOSEN, a COOKIE).  That attempt may fail; the next ones must not
+        sc['init_stray'] = {'seed': r.randrange(2 ** 31), 'p': r.choice([0.3, 0.6, 1.0])}
+    if r.random() < 0.3:
         # a kernel with sub-policies, marks or interface ids: its ACQUIRE / EXPIRE events carry XFRMA_POLICY_TYPE, XFRMA_MARK, XFRMA_IF_ID
         sc['kernel_event_attrs'] = r.sample(['policy_type', 'mark', 'if_id'], r.randint(1, 3))
         sc['meta']['kernel_event_attrs'] = True
@@ -201,6 +205,7 @@ def _execute(scenario, with_hostile=True):
                                                   (o['op'] == 'call' and o['name'] in ('hostile', 'kodd')))]
         sc.pop('byz', None)
         sc.pop('halfopen_stray', None)
+        sc.pop('init_stray', None)
         sc['fate_policy'] = {'mode': 'random', 'lat_range': [0.005, 0.05]}
         sc['fates'] = {k: v for k, v in sc.get('fates', {}).items() if v.get('fate') in ('deliver',)}
 
@@ -220,6 +225,46 @@ def _execute(scenario, with_hostile=True):
             rule, _ = byz.make(sc['byz']['kind'], sc['byz']['seed'], w, ip, tap, ctx['reach'])
             ip.rules.append(rule)
         ctx['handlers'] = _handlers(ctx)
+        ist = sc.get('init_stray')
+        if ist:
+            import struct as _st
+            from sim import refike as _R
+
+            class InitStray:
+                n = 0
+
+                def on_wire(self, meta, data):
+                    h = parse_header(data)
+                    if h is None or meta['sender'] not in w.nodes or h['exch'] != 34 or h['R'] or w.now >= sc['quiet_from']:
+                        return
+                    self.n += 1
+                    r = random.Random(f'initstray:{ist["seed"]}:{self.n}')
+                    if r.random() >= ist['p']:
+                        return
+                    offered = set()
+                    try:
+                        for p_ in _R.dec_chain(bytes(data)[28:], _R.dec_header(bytes(data))['next']):
+                            d_ = _R.dec_payload(p_)
+                            if d_['type'] == _R.P_SA:
+                                offered = {t['id'] for pr in d_['proposals'] for t in pr['transforms'] if t['type'] == _R.T_DH}
+                    except _R.DecodeError:
+                        pass
+                    kind = r.choice(['invalid_ke_never_offered', 'invalid_ke_never_offered', 'no_proposal_chosen', 'cookie', 'invalid_ke_short'])
+                    if kind == 'invalid_ke_never_offered':
+                        g = r.choice([x for x in (1, 2, 5, 14, 15, 16, 19, 20, 21, 31) if x not in offered] or [2])
+                        ntype, ndata = 17, _st.pack('>H', g)
+                    elif kind == 'invalid_ke_short':
+                        ntype, ndata = 17, r.choice([b'', b'\x0e'])
+                    elif kind == 'no_proposal_chosen':
+                        ntype, ndata = 14, b''
+                    else:
+                        ntype, ndata = 16390, bytes(r.getrandbits(8) for _ in range(r.choice([1, 32, 64])))
+                    body = _st.pack('>BBHBBH', 0, 0, 8 + len(ndata), 0, 0, ntype) + ndata
+                    spi_r = r.choice([b'\0' * 8, bytes(r.getrandbits(8) for _ in range(8))])
+                    dgram = h['spi_i'] + spi_r + bytes([41, 0x20, 34, 0x20]) + _st.pack('>LL', 0, 28 + len(body)) + body
+                    ctx['reach']['init_stray.' + kind] = ctx['reach'].get('init_stray.' + kind, 0) + 1
+                    w.net.inject(dgram, meta['dst'], meta['src'], 0.0, 'forge.init_stray')
+            w.net.taps.append(InitStray())
         hs = sc.get('halfopen_stray')
         if hs:
             import struct
